@@ -47,6 +47,22 @@ CHECKS.update({
         note=E2_NOTE + " 'Any bytes' is decided for the structured alphabet, not all byte strings."),
 })
 
+SIM_NOTE = ("Trusted base: the segment simulator /verif/mc/src/sim.rs (ESC register file, SII, AL state machine, FMMU/SM mapping, mailbox/CoE server, DC latch model; written from the datasheet semantics, uses no ethercrab type), "
+            "the EEPROM image generator and the executor with virtual time (10 us per frame). Real hardware may behave differently where the datasheet leaves freedom.")
+
+CHECKS.update({
+    "C07": dict(
+        engine="E3 net + E4 enum", category="exploration", design_ref="DESIGN.md section 5 C07",
+        technique="bounded-exhaustive enumeration of group layouts x frame sizes x cycle variants; each cycle executed by the real tx_rx* code against the segment simulator; oracle = the simulator's wire-level datagram log and device memories",
+        text="For every image length 0..=L, every input/output split over 1..=D SubDevices, every frame size of the stated set and the plain / system-time-sync (with and without reference) / DC variants: LRW ranges tile the logical window without gap or overlap, each frame fits, exactly one leading FRMW on DC variants whose answer is the reported time, inputs equal device input memory, outputs reach device output memory and stay intact locally, wkc is the LRW sum, one state per SubDevice in order, frame count within the non-reimplementing budget, and the cycle terminates (spin hangs are caught by a wall-clock deadline per case).",
+        note=SIM_NOTE),
+    "C09": dict(
+        engine="E3 net + E4 enum", category="exploration", design_ref="DESIGN.md section 5 C09",
+        technique="bounded-exhaustive enumeration of simulated chains (device counts, stale station addresses, SII read sizes, feature mixes, group filters); each case runs the real MainDevice::init against the segment simulator",
+        text="init reports exactly n devices, device i gets 0x1000+i both in its register and in the SubDevice record, identity/name/alias/DC capability/upstream neighbour come from that device, every device sits in exactly the chosen group, all are in PRE-OP; over-capacity and rejecting filters give errors, not panics; empty network gives empty groups.",
+        note=SIM_NOTE),
+})
+
 NOT_YET = {
 }
 
@@ -93,6 +109,8 @@ def main():
              "kind_free_text": "controlled scheduler (stackful coroutines, one scheduling point before every shared-state access) + deviation-bounded stateless DFS over choice vectors (/verif/mc/src/core.rs) on the real PDU loop"},
             {"name": "E2 hist", "path": "/verif/mc/src/e2.rs", "serves_properties": [p for p in ["C03", "C05"] if p in CHECKS],
              "kind_free_text": "explicit-state BFS over operation histories; a state is the history that reaches it, every expansion rebuilds a fresh storage and replays the history on the real code; canonical state hashing"},
+            {"name": "E3 net", "path": "/verif/mc/src/net.rs", "serves_properties": [p for p in ["C07","C08","C09","C10","C11","C12","C13","C14","C15","C16","C17","C18","C20"] if p in CHECKS],
+             "kind_free_text": "the full MainDevice stack closed by a simulated EtherCAT segment (sim.rs, coe.rs, eeprom.rs) under virtual time; every environment answer / fault is an enumerated input or an explorer choice"},
             {"name": "E4 enum", "path": "/verif/mc/src/checks", "serves_properties": [p for p in ["C04", "C07", "C12", "C13", "C18", "C19"] if p in CHECKS],
              "kind_free_text": "bounded-exhaustive enumeration of a stated finite input/program domain, each case executed on the real code and compared with an independent reference"},
         ],
